@@ -385,4 +385,61 @@ def R8_cross_checks(run):
     C18.R7_range_validator(RuleProxy(run, 'R8'))
 
 
-RULES = [R1_writers, R2_one_delta, R3_tick_polarity, R4_in_range, R5_crossing, R6_sync, R7_cursor, R8_cross_checks]
+def R9_signed_addition(run):
+    run.title("R9", "add_liquidity_delta(l, d): d == 0 => l; d > 0 => l checked_add (d as u128), None => LiquidityOverflow; d < 0 => l checked_sub |d| "
+                    "(unsigned_abs, so i128::MIN is 2^127 and not a wrapped negative), None => LiquidityUnderflow")
+    facts = run.facts
+    fn = facts.need_fn("math::liquidity_math::add_liquidity_delta")
+    run.touch(fn)
+    ats = A.atoms(fn)
+    zero = pos = None
+    for at in ats:
+        c = at.cond()
+        if not c:
+            continue
+        for (o, x, y) in ((c[0], c[1], c[2]), (A.SWAP[c[0]], c[2], c[1])):
+            if is_param(x, "delta") and const_val(y) == 0:
+                if o in ("Eq", "Ne"):
+                    zero = (at, o == "Eq")
+                elif o in ("Gt", "Le", "Lt", "Ge"):
+                    pos = (at, o)
+    ok = zero is not None and pos is not None and len(ats) == 2
+    run.check("R9", "tests", ok, "add_liquidity_delta does not test exactly delta == 0 and the sign of delta (%s)" % [at.describe()[:50] for at in ats], loc=fn.loc(), detail="delta == 0; delta > 0")
+    if not ok:
+        return
+
+    def rets(assumptions):
+        pv = prov_assuming(fn, assumptions)
+        out = []
+        for bi, bb in enumerate(fn.blocks):
+            if bb["t"]["k"] == "ret" and pv.flow.state_in[bi] is not None:
+                out.extend(leaves(pv.local(0, bi, len(bb["s"]))))
+        return out
+    z_true = (zero[0], zero[1])
+    z_false = (zero[0], not zero[1])
+    r0 = rets([z_true])
+    ok0 = len(r0) == 1 and r0[0][0] == "agg" and r0[0][2] == "Ok" and is_param(dict(r0[0][3])["0"], "liquidity")
+    run.check("R9", "zero", ok0, "add_liquidity_delta(l, 0) returns %s, expected Ok(l)" % [sh(x, 40) for x in r0], loc=fn.loc(), detail="Ok(liquidity)")
+    at, o = pos
+    # truth value of the atom under which delta > 0 (given delta != 0: Ge is Gt, Le is Lt)
+    pos_true = {"Gt": True, "Ge": True, "Lt": False, "Le": False}[o]
+    for sign, truth, op, conv, code in (("positive", pos_true, "checked_add", "cast", "LiquidityOverflow"), ("negative", not pos_true, "checked_sub", "unsigned_abs", "LiquidityUnderflow")):
+        rs = rets([z_false, (at, truth)])
+        ok = len(rs) == 1
+        why = [sh(x, 80) for x in rs]
+        if ok:
+            r = strip(rs[0])
+            ok = r[0] == "call" and r[1].endswith("ok_or") and is_call(r[2][0], op) and code in show(r[2][1], True)
+            if ok:
+                a_ = strip(r[2][0])[2]
+                amt = a_[1]
+                if conv == "cast":
+                    okc = amt[0] == "cast" and is_param(strip(amt), "delta") and amt[2] == "u128"
+                else:
+                    okc = is_call(amt, "unsigned_abs") and is_param(strip(amt)[2][0], "delta")
+                ok = is_param(a_[0], "liquidity") and okc
+        run.check("R9", sign, ok, "add_liquidity_delta with a %s delta returns %s, expected liquidity.%s(%s).ok_or(%s)" % (sign, why, op, "delta as u128" if conv == "cast" else "delta.unsigned_abs()", code),
+                  loc=fn.loc(), detail="liquidity.%s(%s).ok_or(%s)" % (op, "delta as u128" if conv == "cast" else "|delta|", code))
+
+
+RULES = [R1_writers, R2_one_delta, R3_tick_polarity, R4_in_range, R5_crossing, R6_sync, R7_cursor, R8_cross_checks, R9_signed_addition]
